@@ -17,7 +17,31 @@ import numpy as np
 import xdeps
 from xdeps.optimize.optimize import Optimize, Vary, Target, Action
 
-FAM = {"linear": lambda z: z, "quad": lambda z: z * z + z, "trig": np.sin, "atan": np.arctan, "exp": np.exp}
+class CallDeadline(Exception):
+    pass
+
+class deadline:
+    """a library call that normally takes milliseconds is interrupted after `seconds` of wall time (SIGALRM) instead of hanging the harness"""
+    def __init__(self, seconds=120):
+        self.seconds = seconds
+    def __enter__(self):
+        import signal
+        def onalarm(signum, frame):
+            raise CallDeadline("the call did not return within %s s" % self.seconds)
+        self._old = signal.signal(signal.SIGALRM, onalarm)
+        signal.setitimer(signal.ITIMER_REAL, self.seconds)
+        return self
+    def __exit__(self, *exc):
+        import signal
+        signal.setitimer(signal.ITIMER_REAL, 0)
+        signal.signal(signal.SIGALRM, self._old)
+        return False
+
+def _sqrt(z):
+    with np.errstate(invalid="ignore"):
+        return np.sqrt(z)          # NaN for a negative argument
+
+FAM = {"linear": lambda z: z, "quad": lambda z: z * z + z, "trig": np.sin, "atan": np.arctan, "exp": np.exp, "sqrt": _sqrt}
 
 class LogDict(dict):
     """container recording every store (knob write trace)"""
